@@ -581,7 +581,12 @@ func (w *_builder) Build() datamodel.Node {
 }
 
 func (w *_builder) Reset() {
-	panic("bindnode TODO: Reset")
+	// Start over on a fresh value; a node returned by an earlier Build keeps the old one.
+	w._assembler = _assembler{
+		cfg:        w.cfg,
+		schemaType: w.schemaType,
+		val:        reflect.New(w.val.Type()).Elem(),
+	}
 }
 
 type _assembler struct {
